@@ -22,7 +22,7 @@ for id in $ids; do
   : > $out/$id.txt
   for c in $checks; do
     [ -f $vf/lib/props/$c.py ] || { echo "$id $c NO-CHECK" >> $out/$id.txt; continue; }
-    ( cd $vf && VERIF_REPO=$wt timeout 1500 ./check $c quick > $out/$id.$c.log 2>&1; echo "$id $c exit=$? $(grep -c '^VIOLATION' $out/$id.$c.log) violations: $(grep -o 'key=[^ ]*' $out/$id.$c.log | head -3 | tr '\n' ' ')" >> $out/$id.txt )
+    ( cd $vf && VERIF_REPO=$wt timeout 1500 ./check $c ${TIER:-quick} > $out/$id.$c.log 2>&1; echo "$id $c exit=$? $(grep -c '^VIOLATION' $out/$id.$c.log) violations: $(grep -o 'key=[^ ]*' $out/$id.$c.log | head -3 | tr '\n' ' ')" >> $out/$id.txt )
   done
   cat $out/$id.txt
 done
